@@ -10,7 +10,7 @@ from pbt.core import Result, silence, exc_sig, pf_outcome
 ID = "C14"
 LEVEL = "exploration"
 EXAMPLES = {"quick": 640, "thorough": 12000}
-DEADLINE_S = {"quick": 300, "thorough": 3000}
+DEADLINE_S = {"quick": 600, "thorough": 3000}
 # Hypothesis needs minutes to shrink a network recipe + case list (each attempt re-draws the grid); the quick tier
 # reports the smallest failing case found instead (hand-reduced witnesses are in replays/)
 NO_SHRINK = {"quick": True, "thorough": False}
